@@ -476,4 +476,12 @@ def main_wrapper(prop, fn):
             # files) before a later part of the check could not be decided: the verdict stands
             print("%s: %d violation(s) before the undecided part" % (prop, len(ctx.violations)))
             rc = 1
+    except (SystemExit, KeyboardInterrupt):
+        raise
+    except BaseException:
+        # a defect of the machinery itself (not of the library): never exit 1 without a VIOLATION line
+        import traceback
+        traceback.print_exc()
+        print("UNDECIDED %s: internal error of the check" % prop, file=sys.stderr)
+        rc = 1 if ctx.violations else 2
     sys.exit(rc)
